@@ -30,7 +30,8 @@ ASSUMPTIONS = [
     "subject); tasks are scripted doubles",
     "a 'restart' is a relaunch after an exit other than SubmissionFailed, a 're-submission' a relaunch after "
     "SubmissionFailed; 'consecutive' re-submissions are counted as uninterrupted runs of failed submissions",
-    "repeating components are not covered by this check",
+    "repeating components: only the bound on restart launches (task-generator calls without output files) and "
+    "termination are checked (sub-check `observer`)",
 ]
 TIERS = {"quick": {"shards": 16, "budget": 150}, "thorough": {"shards": 16, "budget": 2400}}
 
@@ -197,9 +198,86 @@ def check(case, ctx: Ctx):
                     "final": final, "restarts": restarts})
 
 
+# ----------------------------------------------------------------------------------------------------------
+# repeating components: the engine is restarted (at most once, only after ResourceExhausted) when the final execution
+# of the observer died of ResourceExhausted; restart launches are the task-generator calls without output files
+@st.composite
+def observer_cases(draw):
+    n_ok = draw(st.integers(0, 2))
+    tail = [draw(st.sampled_from(["ResourceExhausted", "ResourceExhausted", "KnownIssue", "Success"]))
+            for _ in range(draw(st.integers(1, 5)))]
+    restart_script = [draw(st.sampled_from(["SubmissionFailed", "SubmissionFailed", "ResourceExhausted", "Success",
+                                            "KnownIssue"])) for _ in range(draw(st.integers(0, 6)))]
+    return {"ok": n_ok, "tail": tail, "restart_script": restart_script,
+            "retries": draw(st.sampled_from([0, 1, 3])),
+            "maxRestarts": draw(st.sampled_from([None, None, 1, 2])),
+            "subject": draw(st.sampled_from([["Success"], ["Success"], ["KnownIssue"]])),
+            "sched": draw(st.sampled_from(["fifo", "fifo", "lifo"]))}
+
+
+class _ObserverBackend(rtdriver.ScriptedBackend):
+    """Periodic executions of the observer follow `ok`+`tail`, restart launches follow `restart_script`."""
+
+    def __init__(self, case):
+        super().__init__({})
+        self.case = case
+        self.n_repeat = 0
+        self.n_restart = 0
+
+    def __call__(self, job, outputFile=None, errorFile=None, **kw):
+        ref = job.reference
+        if ref == "stage0.Obs":
+            if outputFile is not None:
+                seq = ["Success"] * self.case["ok"] + list(self.case["tail"])
+                reason = seq[self.n_repeat] if self.n_repeat < len(seq) else seq[-1]
+                self.n_repeat += 1
+            else:
+                seq = self.case["restart_script"]
+                reason = seq[self.n_restart] if self.n_restart < len(seq) else "SubmissionFailed"
+                self.n_restart += 1
+            self.script = {ref: [None] * self.launches[ref] + [reason]}
+        else:
+            self.script.setdefault(ref, list(self.case["subject"]))
+        return super().__call__(job, outputFile=outputFile, errorFile=errorFile, **kw)
+
+
+def check_observer(case, ctx: Ctx):
+    loc = ctx.mkdtemp()
+    try:
+        wa = {"repeatInterval": 5, "repeatRetries": case["retries"]}
+        if case["maxRestarts"] is not None:
+            wa["maxRestarts"] = case["maxRestarts"]
+        fl = {"components": [
+            {"name": "Sub", "stage": 0, "command": {"executable": "echo", "arguments": "s"}},
+            {"name": "Obs", "stage": 0, "command": {"executable": "echo", "arguments": "Sub:ref"},
+             "references": ["Sub:ref"], "workflowAttributes": wa}]}
+        exp = pkg.experiment_from_flowir(fl, loc)
+        drv = rtdriver.Driver(exp, PatternChooser(case["sched"]), {}, max_decisions=12000, max_items=120000)
+        drv.backend = _ObserverBackend(case)
+        res = drv.run()
+    finally:
+        shutil.rmtree(loc, ignore_errors=True)
+    obs = [(r, k) for (c, n, r), k in zip(res.launch_log, res.launch_kinds) if c == "stage0.Obs"]
+    restarts = [r for r, k in obs if k == "plain"]
+    limit = case["maxRestarts"] if case["maxRestarts"] is not None else 3
+    desc = "case=%s observer launches=%s states=%s aborted=%s" % (case, obs, res.states, res.aborted)
+    if len(restarts) > limit:
+        raise Violation("repeating-restarts-exceed-maximum", "%d restart launches > %d; %s" % (len(restarts), limit, desc))
+    if res.stuck:
+        raise Violation("repeating-component-never-finalised", desc)
+    if res.aborted:
+        ctx.rec.label("observer:inconclusive:" + res.aborted)
+        return
+    ctx.rec.label("observer:restarts=%d" % len(restarts), "observer:final=%s" % res.states.get("stage0.Obs"))
+    if restarts or any(r != "Success" for r, k in obs):
+        ctx.rec.nt(["c12obs", {k: case[k] for k in case if k != "sched"}],
+                   {"case": case, "observer_launches": obs, "final": res.states}, group="observer")
+
+
 def shard(ctx: Ctx):
     explore(ctx, "policy", cases(), check, ctx.n(960, 40000), batch=60, shrink=True)
+    explore(ctx, "observer", observer_cases(), check_observer, ctx.n(320, 12000), batch=20, shrink=True)
 
 
 def replay(sub, case, ctx: Ctx):
-    check(case, ctx)
+    {"policy": check, "observer": check_observer}[sub or "policy"](case, ctx)
